@@ -24,7 +24,7 @@ EXPECTED_THEOREMS = {
     "C11": ["released_at_parse_iff", "small_body_limit", "buffered_is_small", "ahead_step_small", "ahead_blocks_only_on_streamed_body", "ahead_heads_prefix_of_run", "small_body_never_owns_stream", "streamed_body_owns_stream", "par_parse_enabled", "par_stream_free_when_owners_gone"],
     "C14": ["declared_length_allocation_bounded", "accepted_content_length_fits", "accepted_chunk_size_fits", "discard_read_size_bounded", "limited_read_request_bounded", "te_comparison_consistent", "nan_is_rejected", "run_always_ends_regularly"],
     "C15": ["respond_swallows_client_errors", "incomplete_head_not_delivered", "no_terminator_no_head", "incomplete_small_body_not_delivered", "head_in_prefix_is_head", "body_read_never_blocks_when_closed", "read_up_to_never_blocks_when_closed", "drain_terminates_when_closed", "handle_never_blocks_when_closed", "prefix_delivery"],
-    "C20": ["min_threads_value", "idle_period_value", "active_count_exact", "untimed_waiters_bounded", "idle_pool_at_baseline", "timed_out_worker_exits", "retire_no_task_lost", "drop_wakes_everybody", "accept_loop_stops", "handed_out_still_answerable", "no_accept_after_exit"],
+    "C20": ["min_threads_value", "idle_period_value", "active_count_exact", "untimed_waiters_bounded", "idle_pool_at_baseline", "timed_out_worker_exits", "retire_no_task_lost", "drop_wakes_everybody", "accept_loop_stops", "handed_out_still_answerable", "no_accept_after_exit", "whole_drop_reclaims_every_worker", "whole_idle_returns_to_baseline", "whole_drop_reclaim_needs_thread_bound"],
     "C07": ["queue_exactly_once", "log_values_are_taken", "no_lost_wakeup", "quiescent_blocked_implies_empty", "look_enabled", "whole_queue_reachable", "whole_pushed_are_the_connections_requests", "whole_exactly_once", "whole_pushed_le_sent"],
     "C17": ["token_conservation", "tokens_preserve_requests", "try_recv_never_blocks", "recv_empty_only_by_token", "recv_timeout_bounds", "unblock_released_before_time_passes"],
     "C02": ["head_roundtrip", "method_table", "delivered_is_parsed", "head_roundtrip_any_segmentation"],
